@@ -412,6 +412,20 @@ func (e *Engine) Merge(g *T, a, b Value) Value {
 		return out
 	case *OpaqueV:
 		return x
+	case *NDCount:
+		y := b.(*NDCount)
+		out := make(map[string]int, len(x.m))
+		for k, v := range x.m {
+			out[k] = v
+		}
+		for k, v := range y.m {
+			if v > out[k] {
+				out[k] = v
+			}
+		}
+		return &NDCount{m: out}
+	case *IterV:
+		return x
 	}
 	panic(fmt.Sprintf("engine: merge of %T", a))
 }
